@@ -723,25 +723,33 @@ class AttackGraph():
         if attacker.id in self._id_to_attacker:
             raise ValueError(f'Attacker index {attacker_id} already in use.')
 
-        self.next_attacker_id = max(attacker.id + 1, self.next_attacker_id)
+        # Resolve all of the node ids before changing anything, so that a
+        # rejected call leaves the graph untouched.
+        reached_nodes = []
         for node_id in reached_attack_steps:
             node = self.get_node_by_id(node_id)
             if node:
-                attacker.compromise(node)
+                reached_nodes.append(node)
             else:
                 msg = ("Could not find node with id %d"
                        "in reached attack steps.")
                 logger.error(msg, node_id)
                 raise AttackGraphException(msg % node_id)
+        entry_point_nodes = []
         for node_id in entry_points:
             node = self.get_node_by_id(int(node_id))
             if node:
-                attacker.entry_points.append(node)
+                entry_point_nodes.append(node)
             else:
                 msg = ("Could not find node with id %d"
                        "in attacker entrypoints.")
                 logger.error(msg, node_id)
                 raise AttackGraphException(msg % node_id)
+
+        self.next_attacker_id = max(attacker.id + 1, self.next_attacker_id)
+        for node in reached_nodes:
+            attacker.compromise(node)
+        attacker.entry_points.extend(entry_point_nodes)
         self.attackers.append(attacker)
         self._id_to_attacker[attacker.id] = attacker
 
